@@ -1,6 +1,7 @@
-(* C06 - Make, Ninja and compile_commands.json describe the same build: the flag-assembly core.
-   Everything else about C06 (targets, dependency relation, whole argv, cwd, environment) is decided by the
-   system-level translation validation in harness/c06.py. *)
+(* C06 - Make, Ninja and compile_commands.json describe the same build: the flag-assembly core, the dependency
+   relation and targets of the two build files, and (last part) the argument list of a compile / link step across
+   all three emitters.  Working directory, environment and the steps outside the modelled domain are decided by
+   the system-level translation validation in harness/c06.py. *)
 From BFG Require Import Base.Chars Shell.PosixQuote Shell.Sh Make.MakeWrite Make.MakeRead
   Ninja.NinjaWrite Ninja.NinjaRead Graph.BackendAgree Graph.Steps Graph.Emit Graph.EmitProofs.
 
